@@ -5,6 +5,7 @@ import (
 	"fmt"
 	"math/rand"
 	"net/http/httptest"
+	"net/url"
 	"sort"
 	"strings"
 	"time"
@@ -408,8 +409,14 @@ func c18Harvest(r *core.Run, idx int, rng *rand.Rand) {
 	mustRegister(e.W, d, "a")
 	id := "id" + legalXMLString(rng, 6)
 	var call *env.Call
-	kind := idx % 3
+	kind := idx % 4
 	switch kind {
+	case 3: // callback error reply: the status message echoes what storage says about an attacker-chosen id (any bytes)
+		id = "id" + anyString(rng, false)
+		sc := randScenario(rng, fmt.Sprintf("MK%dx", idx), false)
+		sc.Host = ""
+		sc.install(e.W)
+		call = e.Do(env.Req{Path: env.PathLogin, Query: "id=" + url.QueryEscape(id)})
 	case 0: // SSO error reply echoing the request ID
 		a := validAuthn(rng, d)
 		a.ID = id
@@ -432,7 +439,7 @@ func c18Harvest(r *core.Run, idx int, rng *rand.Rand) {
 		q.Attrs = nil
 		call = e.Do(env.Req{Method: "POST", Path: env.PathAttr, Body: q.XML(rng), CT: "text/xml"})
 	}
-	class := []string{"sso_error", "logout", "attribute_query"}[kind]
+	class := []string{"sso_error", "logout", "attribute_query", "callback_unknown_id"}[kind]
 	r.Eval(class + core.Hex(id))
 	viol := func(clause, reason string) {
 		r.Violate(core.Violation{Clause: clause, Class: class, Reason: reason, Workload: wl, Index: idx, Case: map[string]any{"id": id}, Observed: call.Describe()})
@@ -460,6 +467,17 @@ func c18Harvest(r *core.Run, idx int, rng *rand.Rand) {
 		viol("no_message", "reply does not contain a protocol message")
 		return
 	}
+	if kind == 3 {
+		// the echo travels in the status message; illegal characters may be replaced, nothing else may change
+		if !strings.Contains(replaceIllegal(pm.StatusMessage), replaceIllegal(id)) {
+			viol("echo_changed", fmt.Sprintf("status message %q does not carry the (replaced) id %q", clipS(pm.StatusMessage, 200), clipS(replaceIllegal(id), 200)))
+		}
+		if pm.StatusCode == "" || pm.Root != "Response" {
+			viol("structure_changed_by_data", "the reply is not a Response with a status: root "+pm.Root)
+		}
+		r.Count("harvested_status_message_echoes", 1)
+		return
+	}
 	if pm.InResponseTo != id || call.D.Msg.InResponseTo != id {
 		viol("echo_changed", fmt.Sprintf("InResponseTo expat %q / etree %q, request ID %q", pm.InResponseTo, call.D.Msg.InResponseTo, id))
 	}
@@ -474,13 +492,14 @@ func init() {
 		TimeoutQuick: 5 * time.Minute, TimeoutThorough: 30 * time.Minute,
 		Build: func(c *Ctx) []core.Workload {
 			r := c.Run
-			r.Rule = "(A) codec: InflateAndDecode(DEFLATE, base64, DeflateAndBase64(b)) = b for byte strings of 0 B - 4 MiB (zero, random, repetitive, text), cross-checked with the harness's own base64+inflate; every near-miss encoding identifier is an error. (B) Response / SOAP envelope / LogoutResponse / EntityDescriptor values with arbitrary strings in every string field (legal XML characters incl. metacharacters, CDATA terminators, CR/LF/TAB; or illegal control characters, surrogate / overlong / invalid UTF-8) are passed through the exported Marshal / WriteXMLMarshalled: the bytes must be one well-formed document for expat, its element / attribute skeleton must equal the skeleton of the same value with neutral strings, legal values must come back exactly from expat and from the library decoders, illegal ones only replaced by U+FFFD. (C) replies of the real handlers that echo attacker-chosen request IDs are harvested and checked the same way. Distinct = inputs by hash."
+			r.Rule = "(A) codec: InflateAndDecode(DEFLATE, base64, DeflateAndBase64(b)) = b for byte strings of 0 B - 4 MiB (zero, random, repetitive, text), cross-checked with the harness's own base64+inflate; every near-miss encoding identifier is an error. (B) Response / SOAP envelope / LogoutResponse / EntityDescriptor values with arbitrary strings in every string field (legal XML characters incl. metacharacters, CDATA terminators, CR/LF/TAB; or illegal control characters, surrogate / overlong / invalid UTF-8) are passed through the exported Marshal / WriteXMLMarshalled: the bytes must be one well-formed document for expat, its element / attribute skeleton must equal the skeleton of the same value with neutral strings, legal values must come back exactly from expat and from the library decoders, illegal ones only replaced by U+FFFD. (C) replies of the real handlers that echo attacker-chosen request IDs, or - in the status message - what storage says about an attacker-chosen callback id made of arbitrary bytes, are harvested and checked the same way. Distinct = inputs by hash."
 			r.Assume("codec inputs are at most 4 MiB (the decoder deliberately rejects inflated sizes above its cap, see C14)")
 			r.Require("codec_round_trips", int64(c.Pick(3000, 30000)))
 			r.Require("unknown_encoding_probes", 1000)
 			r.Require("structure_preserved", int64(c.Pick(1500, 15000)))
 			r.Require("legal_value_round_trips", 500)
 			r.Require("harvested_messages", 300)
+			r.Require("harvested_status_message_echoes", 100)
 			return []core.Workload{
 				{Name: "codec", N: c.Pick(130, 1300), Fn: c18Codec},
 				{Name: "built_messages", N: c.Pick(260, 2600), Fn: c18Built},
